@@ -274,5 +274,6 @@ def assemble(unit_names, workdir, repo=None):
     return path, meta
 
 if __name__ == '__main__':
+    USE_BASELINE_LOOPS = False
     p, meta = assemble(sys.argv[1:], os.path.join(VERIF, 'build', 'manual'))
     print(p)
